@@ -9,7 +9,8 @@ UNIT = dict(
     ('R6', 'Vm::full_import_path', dict(pat='String::new()', rep='StrBuf::new()', count=1)),
     # R13: `for segment in &path_segments[..path_segments.len() - 1]` -> index loop over the same prefix
     ('R13', 'Vm::full_import_path', dict(pat=r'for segment in &path_segments\[\.\.path_segments\.len\(\) - 1\] \{', rep='let mut verif_i: usize = 0;\n    while verif_i < path_segments.len() - 1 {\n      let segment = &path_segments[verif_i];', regex=True, count=1)),
-    ('R13', 'Vm::full_import_path', dict(pat=r"(buffer\.push\('/'\);)", rep=r"\1\n      verif_i += 1;", regex=True, count=1)),
+    # the increment goes before the closing brace of that loop (rustfmt indentation: the first `\n    }` after the loop head)
+    ('R13', 'Vm::full_import_path', dict(pat=r"(?s)(let segment = &path_segments\[verif_i\];.*?)(\n    \})", rep=r"\1\n      verif_i += 1;\2", regex=True, count=1)),
   ],
   assumption_ids=['A-std'],
 )
